@@ -67,9 +67,23 @@ package verifspec
 // pruneImports: an import that is otherwise unused survives (as a blank import) exactly when it is the import a directive
 // needs: "unsafe" for //go:linkname, "embed" for //go:embed; the check asks HasDirectivePrefix for the prefix that belongs
 // to the import path.
-//@ extern compiler/astutil.HasDirectivePrefix
-//@   param file prefix
+//@ extern strings.HasPrefix
+//@   param s prefix
 //@   assigns nothing
+//@   ensures result == hasPrefix(s, prefix)
+// HasDirectivePrefix: true exactly if some comment of the file starts with the prefix.
+//@ func compiler/astutil.HasDirectivePrefix
+//@ property C12
+//@   panics_only_if true
+//@   requires file != nil
+//@   assigns nothing
+//@   loop 1 invariant 0 <= $i1 && $i1 <= len(file.Comments)
+//@   loop 1 invariant forall2(i, j, 0 <= i && i < $i1 && 0 <= j && j < len(file.Comments[i].List) ==> !hasPrefix(file.Comments[i].List[j].Text, prefix))
+//@   loop 2 invariant 0 <= $i1 && $i1 < len(file.Comments) && 0 <= $i2 && $i2 <= len(cg.List)
+//@   loop 2 invariant forall2(i, j, 0 <= i && i < $i1 && 0 <= j && j < len(file.Comments[i].List) ==> !hasPrefix(file.Comments[i].List[j].Text, prefix))
+//@   loop 2 invariant forall(j, 0, $i2, !hasPrefix(cg.List[j].Text, prefix))
+//@   ensures !result ==> forall2(i, j, 0 <= i && i < len(file.Comments) && 0 <= j && j < len(file.Comments[i].List) ==> !hasPrefix(file.Comments[i].List[j].Text, prefix))
+//@   ensures result ==> exists(i, 0, len(file.Comments), exists(j, 0, len(file.Comments[i].List), hasPrefix(file.Comments[i].List[j].Text, prefix)))
 //@ extern compiler/astutil.ImportName
 //@   param spec
 //@   assigns nothing
